@@ -738,10 +738,16 @@ theorem find?_filter_ne (l : List CredRec) (k u : Url) (hne : k ≠ u) :
     · have h1 : (c.id == k) = false := by simp [e]
       simp only [List.filter, h1, Bool.not_false, List.find?_cons, ih]
 
+@[simp] theorem stored_id (n : Node) (rec : CredRec) : (n.stored rec).id = rec.id := by unfold Node.stored; split <;> rfl
+@[simp] theorem stored_bits (n : Node) (rec : CredRec) : (n.stored rec).bits = rec.bits := by unfold Node.stored; split <;> rfl
+@[simp] theorem stored_raw (n : Node) (rec : CredRec) : (n.stored rec).raw = rec.raw := by unfold Node.stored; split <;> rfl
+@[simp] theorem stored_purpose (n : Node) (rec : CredRec) : (n.stored rec).purpose = rec.purpose := by unfold Node.stored; split <;> rfl
+@[simp] theorem stored_expires (n : Node) (rec : CredRec) : (n.stored rec).expires = rec.expires := by unfold Node.stored; split <;> rfl
+
 theorem cred?_putCred (n : Node) (rec : CredRec) (u : Url) :
-    (n.putCred rec).cred? u = if rec.id = u then some rec else n.cred? u := by
+    (n.putCred rec).cred? u = if rec.id = u then some (n.stored rec) else n.cred? u := by
   unfold Node.putCred Node.cred?
-  simp only [List.find?_cons]
+  simp only [List.find?_cons, stored_id]
   by_cases e : rec.id = u
   · simp [e]
   · simp only [show (rec.id == u) = false by simp [e], e, if_false]
@@ -801,6 +807,14 @@ theorem updateCredential_named {E : Env} {now : Nat} {row : PageRow} {idxs : Lis
   obtain ⟨_, hid, hraw, _, _, _, hvc⟩ := updateCredential_inv h
   exact ⟨{ id := row.id, purpose := "revocation", enc := .ok rec.bits }, by rw [hraw, hvc]; rfl, hid.symm, rfl⟩
 
+theorem Named.stored {rec : CredRec} (h : Named rec) (n : Node) : Named (n.stored rec) := by
+  obtain ⟨s, h1, h2, h3⟩ := h
+  exact ⟨s, by simpa using h1, by simpa using h2, by simpa using h3⟩
+
+theorem Signed.stored {E : Env} {rec : CredRec} (h : Signed E rec) (n : Node) : Signed E (n.stored rec) := by
+  obtain ⟨kid, row, t, h1, h2, h3, h4, h5⟩ := h
+  exact ⟨kid, row, t, h1, by simpa using h2, by simpa using h3, by simpa using h4, by simpa using h5⟩
+
 /-- invariant of one node's status list tables -/
 structure NInv (E : Env) (n : Node) : Prop where
   own : ∀ r, r ∈ n.pages → r.id = n.url r.issuer r.page
@@ -846,7 +860,7 @@ theorem NInv.of_revoke {E : Env} {now : Nat} {n n' : Node} {credId : String} {e 
   · intro u rec0 hc
     rw [cred?_putCred] at hc
     split at hc
-    · cases hc; exact updateCredential_named hup
+    · cases hc; exact (updateCredential_named hup).stored _
     · exact h.named u rec0 hc
   · intro rv hrv
     simp only [Node.putCred, List.mem_append, List.mem_singleton] at hrv
@@ -863,7 +877,7 @@ theorem NInv.of_revoke {E : Env} {now : Nat} {n n' : Node} {credId : String} {e 
     rw [hman] at hu
     rw [cred?_putCred]
     split
-    · exact ⟨rec, rfl⟩
+    · exact ⟨_, rfl⟩
     · exact h.has u hu
   · intro u rec0 hu hc
     rw [hman] at hu
@@ -875,7 +889,7 @@ theorem NInv.of_revoke {E : Env} {now : Nat} {n n' : Node} {credId : String} {e 
     · rename_i heq
       cases hc
       rw [← heq, hrecid, hrid]
-      exact ⟨hbits, hsigned⟩
+      exact ⟨by rw [stored_bits]; exact hbits, hsigned.stored _⟩
     · rename_i hne
       have : ¬ (e.list = u) := by rw [← hrid, ← hrecid]; exact hne
       rw [revsOf_append]
@@ -900,12 +914,12 @@ theorem NInv.of_credential {E : Env} {now : Nat} {n n' : Node} {issuer : String}
     · intro u rec0 hc0
       rw [cred?_putCred] at hc0
       split at hc0
-      · cases hc0; exact updateCredential_named hup
+      · cases hc0; exact (updateCredential_named hup).stored _
       · exact h.named u rec0 hc0
     · intro u hu
       rw [cred?_putCred]
       split
-      · exact ⟨rec, rfl⟩
+      · exact ⟨_, rfl⟩
       · exact h.has u hu
     · intro u rec0 hu hc0
       rw [cred?_putCred] at hc0
@@ -914,7 +928,7 @@ theorem NInv.of_credential {E : Env} {now : Nat} {n n' : Node} {issuer : String}
         cases hc0
         have : (n.putCred rec).revsOf u = n.revsOf (n.url issuer page) := by rw [← heq, hrecid, hrid]; rfl
         rw [this]
-        exact ⟨hbits, hsigned⟩
+        exact ⟨by rw [stored_bits]; exact hbits, hsigned.stored _⟩
       · exact h.crec u rec0 hu hc0
 
 
@@ -1003,7 +1017,7 @@ theorem NInv.of_entryWrite {E : Env} {now : Nat} {n : Node} {issuer kid : String
     · intro u hu
       rw [hcred]
       split
-      · exact ⟨rec, rfl⟩
+      · exact ⟨_, rfl⟩
       · rename_i hne
         rcases (hman u).mp hu with e | hu'
         · exact absurd (by rw [hrecid, e]) hne
@@ -1234,12 +1248,12 @@ theorem NInv.of_update {E : Env} {now : Nat} {n n' : Node} {u : Url} {f : Fetch}
   · intro u' rec0 hc
     rw [cred?_putCred] at hc
     split at hc
-    · cases hc; exact hnamed
+    · cases hc; exact hnamed.stored _
     · exact h.named u' rec0 hc
   · intro u' hu'
     rw [cred?_putCred]
     split
-    · exact ⟨rec, rfl⟩
+    · exact ⟨_, rfl⟩
     · exact h.has u' hu'
   · intro u' rec0 hu' hc
     rw [cred?_putCred] at hc
@@ -1695,11 +1709,11 @@ theorem cache_step {E : Env} {K : KeyEnv} {w w' : World} (hw : WInv E w) (hp : W
         simp only [get_set_same, get_set_other]
         rw [cred?_putCred]
         simp only [hid, if_true]
-        refine ⟨fun _ _ => ⟨rec, rfl⟩, ?_⟩
+        refine ⟨fun _ _ => ⟨_, rfl⟩, ?_⟩
         intro rec' hr
         simp only [Option.some.injEq] at hr
         subst hr
-        exact Or.inr ⟨hpurp, hiff⟩
+        exact Or.inr ⟨by simpa using hpurp, by simpa using hiff⟩
       · refine same k _ (fun _ => ?_)
         obtain ⟨_, _, _, _, _, _, _, hid, _, _, _, _, rfl⟩ := update_ok h
         rw [cred?_putCred]
@@ -1782,7 +1796,7 @@ theorem checkStatus_pinned {E : Env} {K : KeyEnv} {w : World} (hw : WInv E w) (h
       rw [get_set_same, hn', cred?_putCred] at hr'
       simp only [hid, if_true, Option.some.injEq] at hr'
       subst hr'
-      exact ⟨hp', hj'⟩
+      exact ⟨by simpa using hp', by simpa using hj'⟩
   unfold checkStatus
   rw [hst, hsl]
   simp only [hpu, good.1, hidx, getB_true good.2]
@@ -1835,7 +1849,7 @@ theorem refresh_pins {E : Env} {w : World} {i : Bool} {iss : String} {p j : Nat}
   subst hsub'
   simp only [Enc.ok.injEq] at henc
   subst henc
-  refine ⟨by simp, rec, ?_, hpurp, (hiff j).mpr hj⟩
+  refine ⟨by simp, (w.get i).stored rec, ?_, by simpa using hpurp, by simpa using (hiff j).mpr hj⟩
   rw [get_set_same, cred?_putCred]
   simp [hid]
 
@@ -1982,7 +1996,8 @@ theorem checkStatus_snd_of_ok {E : Env} {now : Nat} {n n' : Node} {st : StatusEn
 theorem checkStatus_revoked {E : Env} {now : Nat} {n : Node} {st : StatusEntry} {f : Fetch} (hn : NInv E n)
     (h : (checkStatus E now n st f).1 = some .revoked) :
     ∃ (j : Int) (rec : CredRec), st.idx = some j ∧ rec.bits.bit j = .ok true ∧ rec.id = st.list ∧ Named rec ∧
-      rec.purpose = st.purpose ∧ (checkStatus E now n st f).2.cred? st.list = some rec := by
+      rec.purpose = st.purpose ∧
+      ∃ rec', (checkStatus E now n st f).2.cred? st.list = some rec' ∧ rec'.bits = rec.bits ∧ rec'.raw = rec.raw := by
   cases hsl : statusList E now n st.list f with
   | ok r =>
     obtain ⟨rec, n'⟩ := r
@@ -1990,11 +2005,11 @@ theorem checkStatus_revoked {E : Env} {now : Nat} {n : Node} {st : StatusEntry} 
     unfold checkStatus at h
     rw [hsl] at h
     simp only at h
-    have hrec : rec.id = st.list ∧ Named rec ∧ n'.cred? st.list = some rec := by
+    have hrec : rec.id = st.list ∧ Named rec ∧ ∃ rec', n'.cred? st.list = some rec' ∧ rec'.bits = rec.bits ∧ rec'.raw = rec.raw := by
       rcases statusList_ok hsl with ⟨h1, h2⟩ | ⟨h1, _, _⟩
-      · subst h1; exact ⟨(cred?_some h2).2, hn.named _ _ h2, h2⟩
+      · subst h1; exact ⟨(cred?_some h2).2, hn.named _ _ h2, rec, h2, rfl, rfl⟩
       · obtain ⟨v, s, _, hsub, hsid, henc, _, hid, _, hraw, _, _, hn'⟩ := update_ok h1
-        refine ⟨hid, ⟨s, by rw [hraw]; exact hsub, by rw [hsid, hid], henc⟩, ?_⟩
+        refine ⟨hid, ⟨s, by rw [hraw]; exact hsub, by rw [hsid, hid], henc⟩, n.stored rec, ?_, by simp, by simp⟩
         rw [hn', cred?_putCred]; simp [hid]
     split at h
     · cases h
